@@ -1,6 +1,7 @@
 from .data_container import DataContainer, CornerDataContainer
 from .mesh_attributes import ArrayAttribute
 from ..geometry import Vec
+import numpy as np
 from .. import utils
 from .. import config
 
@@ -141,7 +142,7 @@ class RawMeshData:
 
     def _prepare_vertices(self):
         for iv in self.id_vertices:
-            self.vertices[iv] = Vec(self.vertices[iv]).copy()
+            self.vertices[iv] = Vec(np.array(self.vertices[iv], dtype=float))
 
     def _prepare_edges(self):
         N = len(self.vertices)
